@@ -40,8 +40,10 @@ def execute(acc, case):
     from bromelia.base import DiameterMessage
     rng = random.Random(case["seed"])
     sc = N.Scenario(seed=case["seed"], strategy=case["strategy"], p=case.get("p", 0.1), role=case["role"], apps=[16777251],
-                    lines=case["strategy"] != "rr", max_steps=case.get("max_steps", 400_000), watchdog=case.get("watchdog", 30))
+                    lines=case["strategy"] != "rr", max_steps=case.get("max_steps", 400_000), watchdog=case.get("watchdog", 30), transport=case.get("transport", "TCP"))
     wit = {"case": case}
+    if case.get("transport") == "SCTP":
+        acc.counters["sctp_executions"] += 1      # SctpClient/SctpServer over a fake pysctp module (bvm/vnet.py)
     with sc:
         try:
             if not sc.open():
@@ -195,7 +197,8 @@ def plan(tier, seed):
     for i in range(n):
         cases.append({"seed": seed * 100019 + i, "submitters": rng.choice([1, 1, 2, 3, 4]), "per": rng.choice([1, 2, 3, 5, 10, 30]) if not q else rng.choice([1, 2, 3, 5]),
                       "write": rng.choice(writes), "inbound": rng.choice([0, 0, 2, 5]), "strategy": rng.choice(["rr", "rw", "rw"]),
-                      "p": rng.choice([0.02, 0.1, 0.3]), "role": rng.choice(["client", "server"]), "batch": rng.random() < 0.3})
+                      "p": rng.choice([0.02, 0.1, 0.3]), "role": rng.choice(["client", "server"]), "batch": rng.random() < 0.3,
+                      "transport": rng.choice(["TCP", "TCP", "TCP", "SCTP"])})
     for i in range(6 if q else 60):
         # aggregate above the 256 KiB batching limit, handed over in one send_messages() call
         cases.append({"seed": seed * 733 + i, "submitters": rng.choice([1, 2]), "per": 8, "big": True, "batch": True,
